@@ -58,6 +58,15 @@ void harness(void) {
   if (a.f != a.f) CHECK(b.f != b.f, "NaN reads back as NaN");
   else CHECK(b.u == a.u, "float round trip bit-exact");
   if (a.f != a.f) REACH("NaN"); if (a.f == a.f && a.f != 0 && (a.u & 0x7f800000u) == 0) REACH("subnormal");
+#ifndef VERIF_CBMC
+  /* native replay only: the solver's counterexample value is arbitrary when the libc axiom (9 significant
+     digits round-trip) does not apply; look for a concrete float that fails on the real libc */
+  for (uint32_t u = 1; u < 0xff000000u; u += 4093) {
+    union { uint32_t u; float f; } x, y; x.u = u; y.f = 0;
+    if (x.f != x.f) continue;
+    CHECK(econf_setFloatValue(kf, "w", "f", x.f) == ECONF_SUCCESS && econf_getFloatValue(kf, "w", "f", &y.f) == ECONF_SUCCESS && y.u == x.u, "float round trip bit-exact (native sweep over bit patterns)");
+  }
+#endif
 #elif defined(TYPE_DOUBLE)
   union { uint64_t u; double f; } a, b; a.u = IN64(0); b.f = 0;
   CHECK(econf_setDoubleValue(kf, gs, "k", a.f) == ECONF_SUCCESS, "setDouble succeeds");
@@ -65,6 +74,15 @@ void harness(void) {
   if (a.f != a.f) CHECK(b.f != b.f, "NaN reads back as NaN");
   else CHECK(b.u == a.u, "double round trip bit-exact");
   if (a.f != a.f) REACH("NaN");
+#ifndef VERIF_CBMC
+  { uint64_t st = 88172645463325252ull;
+    for (int it = 0; it < 300000; it++) {
+      st ^= st << 13; st ^= st >> 7; st ^= st << 17;
+      union { uint64_t u; double f; } x, y; x.u = st; y.f = 0;
+      if (x.f != x.f) continue;
+      CHECK(econf_setDoubleValue(kf, "w", "f", x.f) == ECONF_SUCCESS && econf_getDoubleValue(kf, "w", "f", &y.f) == ECONF_SUCCESS && y.u == x.u, "double round trip bit-exact (native pseudo-random sweep)");
+    } }
+#endif
 #elif defined(TYPE_BOOL)
   /* accepted spellings in any letter case */
   static const char *W[6] = { "yes", "true", "1", "no", "false", "0" };
